@@ -662,3 +662,6 @@ PROPS["C13"]["rule"] += _OSSHAPE + "."
 PROPS["C14"]["rule"] += _OSSHAPE + "."
 PROPS["C15"]["rule"] += _OSSHAPE + ", and a default route comes without a destination attribute (known finding F21: those cases are excluded and counted)."
 PROPS["C01"]["rule"] += " One generated loopback route in three carries another interface index (1, 2, 17, 70 000) or kernel preference: the same destination listed again is still one destination."
+
+PROPS["C03"]["rule"] += " RDNSS server lists include addresses with a zone (fe80::53%eth0, ::%eth0, two addresses differing only in the zone): accepted or not, what is built must survive the wire unchanged (finding F23)."
+PROPS["C02"]["rule"] += " Server addresses with a zone are generated among the special spellings and left unjudged (not stated)."
